@@ -12,6 +12,7 @@
 //	                   flag = true/false, flag = flag || e, flag = flag && e, `continue`, and `if`s over
 //	                   these with call-free conditions; every right-hand side is call-free
 //	                   (calls to len/cap and conversions are allowed)
+//	unreachable        the range statement follows an unconditional `return` in its own block (dead code)
 //	other              everything else (must be audited by hand in the expectation file)
 //
 // Output: JSON list sorted by (package, file, function, ordinal within function). Positions are NOT
@@ -115,6 +116,23 @@ func pure(info *types.Info, e ast.Expr) bool {
 	return ok
 }
 
+// pureInit: an `if` init of the form `a, b := <pure expressions>` (type assertions, map lookups)
+func pureInit(info *types.Info, st ast.Stmt) bool {
+	if st == nil {
+		return true
+	}
+	as, ok := st.(*ast.AssignStmt)
+	if !ok || as.Tok != token.DEFINE {
+		return false
+	}
+	for _, r := range as.Rhs {
+		if !pure(info, r) {
+			return false
+		}
+	}
+	return true
+}
+
 func isMap(info *types.Info, e ast.Expr) bool {
 	t := info.TypeOf(e)
 	if t == nil {
@@ -163,12 +181,32 @@ func appendTarget(info *types.Info, st ast.Stmt) (string, bool) {
 	return show(as.Lhs[0]), true
 }
 
+// indexFill: body is exactly `s[i] = <pure>; i++` (filling a pre-sized slice) -> printed s
+func indexFill(info *types.Info, list []ast.Stmt) (string, bool) {
+	if len(list) != 2 {
+		return "", false
+	}
+	as, ok := list[0].(*ast.AssignStmt)
+	inc, ok2 := list[1].(*ast.IncDecStmt)
+	if !ok || !ok2 || as.Tok != token.ASSIGN || len(as.Lhs) != 1 || len(as.Rhs) != 1 || inc.Tok != token.INC {
+		return "", false
+	}
+	ix, ok := as.Lhs[0].(*ast.IndexExpr)
+	if !ok || isMap(info, ix.X) || show(ix.Index) != show(inc.X) || !pure(info, as.Rhs[0]) {
+		return "", false
+	}
+	if _, isId := ix.Index.(*ast.Ident); !isId {
+		return "", false
+	}
+	return show(ix.X), true
+}
+
 // onlyAppends: all leaf statements are appends to the same slice, under pure ifs / continue
 func onlyAppends(info *types.Info, list []ast.Stmt, target *string) bool {
 	for _, st := range list {
 		switch s := st.(type) {
 		case *ast.IfStmt:
-			if s.Init != nil || !pure(info, s.Cond) || !onlyAppends(info, s.Body.List, target) {
+			if !pureInit(info, s.Init) || !pure(info, s.Cond) || !onlyAppends(info, s.Body.List, target) {
 				return false
 			}
 			if s.Else != nil {
@@ -213,11 +251,39 @@ func mentions(n ast.Node, target string) bool {
 	return found
 }
 
+// lenOnlyGuard: `if <cond using the slice only as len(slice)> { <body not mentioning the slice> }`
+func lenOnlyGuard(st ast.Stmt, target string) bool {
+	is, ok := st.(*ast.IfStmt)
+	if !ok || is.Init != nil || is.Else != nil || mentions(is.Body, target) {
+		return false
+	}
+	good := true
+	var walk func(n ast.Node)
+	walk = func(n ast.Node) {
+		ast.Inspect(n, func(x ast.Node) bool {
+			if c, ok := x.(*ast.CallExpr); ok {
+				if id, ok := c.Fun.(*ast.Ident); ok && id.Name == "len" && len(c.Args) == 1 && show(c.Args[0]) == target {
+					return false // fine, do not descend
+				}
+			}
+			if e, ok := x.(ast.Expr); ok && show(e) == target {
+				good = false
+			}
+			return good
+		})
+	}
+	walk(is.Cond)
+	return good
+}
+
 // sortedAfter: among the statements following the range in its block, the FIRST one that mentions the
 // slice is a sort call whose first argument is (a conversion of) the slice.
 func sortedAfter(info *types.Info, rest []ast.Stmt, target string) (bool, string) {
 	for _, st := range rest {
 		if !mentions(st, target) {
+			continue
+		}
+		if lenOnlyGuard(st, target) {
 			continue
 		}
 		es, ok := st.(*ast.ExprStmt)
@@ -251,7 +317,7 @@ func insensitive(info *types.Info, list []ast.Stmt, why *string) bool {
 	for _, st := range list {
 		switch s := st.(type) {
 		case *ast.IfStmt:
-			if s.Init != nil || !pure(info, s.Cond) || !insensitive(info, s.Body.List, why) {
+			if !pureInit(info, s.Init) || !pure(info, s.Cond) || !insensitive(info, s.Body.List, why) {
 				if *why == "" {
 					*why = "if with init/impure condition: " + show(s.Cond)
 				}
@@ -325,6 +391,13 @@ func insensitive(info *types.Info, list []ast.Stmt, why *string) bool {
 
 func classify(info *types.Info, rs *ast.RangeStmt, rest []ast.Stmt) (string, string) {
 	target := ""
+	if t, ok := indexFill(info, rs.Body.List); ok {
+		if ok, d := sortedAfter(info, rest, t); ok {
+			return "sorted-after", d
+		} else {
+			return "other", "fills " + t + " but " + d
+		}
+	}
 	if len(rs.Body.List) > 0 && onlyAppends(info, rs.Body.List, &target) && target != "" {
 		if ok, d := sortedAfter(info, rest, target); ok {
 			return "sorted-after", d
@@ -432,6 +505,11 @@ func main() {
 						}
 						if rs, ok := st.(*ast.RangeStmt); ok && isMap(info, rs.X) {
 							cl, det := classify(info, rs, list[j+1:])
+							for _, prev := range list[:j] {
+								if r, ok := prev.(*ast.ReturnStmt); ok {
+									cl, det = "unreachable", "preceded in its block by an unconditional `"+show(r)+"`"
+								}
+							}
 							k, v := "_", "_"
 							if rs.Key != nil {
 								k = show(rs.Key)
